@@ -29,7 +29,7 @@ S = odl.solvers
 QSCALE = 65536            # fixed-point scale of relational clauses (2^16)
 QLIM = 30000.0            # |v| beyond this is not quantised (flag fin = 0)
 SNAP_TOL = 2.0 ** -36     # rounding (<= 1e-13 incl. ODL's (1 - 10 eps) fudge) << tol << 1/D
-SNAP_D = 240              # lattice of observations: multiples of 1/240 (covers halves ... sixteenths, thirds, fifths)
+SNAP_D = 960              # lattice of observations: multiples of 1/960 (halves ... 64ths, thirds, fifths and products)
 PROBE_SLACKQ = 16         # 2^-12: far below the cost 1/160 of a lattice-step error, far above rounding
 REL_SLACKQ = 8
 
@@ -87,6 +87,30 @@ def snapvec(arr, D=SNAP_D):
     return [snapv(v, D) for v in np.asarray(arr, dtype=float).ravel()]
 
 
+def matches(v, q, rel=1e-9):
+    """observed float against an expected exact value (JSON Q): equal up to rounding"""
+    e = fr(q)
+    if isinstance(e, float):
+        return (math.isinf(e) and math.isinf(v) and (e > 0) == (v > 0)) or (math.isnan(e))
+    return math.isfinite(v) and abs(v - float(e)) <= rel * max(1.0, abs(v))
+
+
+def value_near(func, B, vals, k=8):
+    """func at the point, or - when that is +inf - at a point within 1e-9 (relative) of it where func is finite.
+    An indicator value that flips within rounding distance of the boundary of its set is not a verdict."""
+    v = float(func(B.el(vals)))
+    if math.isfinite(v):
+        return v, False
+    arr = np.array([float(t) for t in vals])
+    scale = 1e-9 * max(1.0, float(np.max(np.abs(arr))) if arr.size else 1.0)
+    prn = np.random.RandomState(4321)
+    for _ in range(k):
+        w = float(func(B.el(arr + scale * prn.uniform(-1, 1, size=arr.shape))))
+        if math.isfinite(w):
+            return w, True
+    return v, False
+
+
 def fixq(v):
     """fixed-point integer of a float, or None when not finite / too large"""
     v = float(v)
@@ -136,18 +160,28 @@ def weights_ok(space, sp):
     return True
 
 
-def element(space, sp, vals):
-    """flat list of numbers -> element"""
-    vals = [float(v) for v in vals]
+def _unflatten(space, vals, pos):
     if isinstance(space, odl.ProductSpace):
-        n = sp['n']
-        return space.element([vals[k * n:(k + 1) * n] for k in range(sp['m'])])
-    return space.element(vals)
+        parts = []
+        for comp in space:
+            e, pos = _unflatten(comp, vals, pos)
+            parts.append(e)
+        return space.element(parts), pos
+    m = int(np.prod(space.shape))
+    return space.element(np.asarray(vals[pos:pos + m], dtype=float).reshape(space.shape)), pos + m
+
+
+def element(space, sp, vals):
+    """flat list of numbers (component-major, C order inside a component) -> element"""
+    vals = [float(v) for v in vals]
+    e, pos = _unflatten(space, vals, 0)
+    assert pos == len(vals)
+    return e
 
 
 def flat(x):
     if isinstance(x.space, odl.ProductSpace):
-        return np.concatenate([np.asarray(xi.asarray(), dtype=float).ravel() for xi in x])
+        return np.concatenate([flat(xi) for xi in x])
     return np.asarray(x.asarray(), dtype=float).ravel()
 
 
@@ -216,10 +250,12 @@ def build(f, space, sp, variant=0):
         A = None
         if f['v']:
             d = frv(f['v'])
-            if all(t == d[0] for t in d) and variant == 0:
+            if isinstance(space, odl.ProductSpace) or (all(t == d[0] for t in d) and variant == 0):
+                if not all(t == d[0] for t in d):
+                    raise Unbuildable('diagonal quadratic form on a product space')
                 A = odl.ScalingOperator(space, float(d[0]))
             else:
-                A = odl.MultiplyOperator(vec(f['v']), domain=space, range=space)
+                A = odl.MatrixOperator(np.diag([float(t) for t in d]), domain=space, range=space)
         b = vec(f['u']) if f['u'] else None
         return S.QuadraticForm(operator=A, vector=b, constant=float(c))
     if op == 'Const':
@@ -312,6 +348,24 @@ def signature(sp, f, clause, extra=None):
     return sig
 
 
+def report(ctx, sig, detail, cap=4):
+    """ctx.violation, but at most `cap` replay files per family (the rest is counted in the evidence)."""
+    key = json.dumps(sig, sort_keys=True)
+    seen = ctx.extra.setdefault('_fam', {})
+    seen[key] = seen.get(key, 0) + 1
+    if seen[key] <= cap:
+        ctx.violation(sig, detail)
+    else:
+        ctx.extra['contradicting_cases_beyond_the_first_%d_per_family' % cap] = \
+            ctx.extra.get('contradicting_cases_beyond_the_first_%d_per_family' % cap, 0) + 1
+
+
+def finish_report(ctx):
+    fam = ctx.extra.pop('_fam', {})
+    ctx.extra['contradicting_cases_total'] = sum(fam.values())
+    ctx.extra['contradicting_families'] = len(fam)
+
+
 # ----------------------------------------------------------------------------- TLC jobs
 def fm_env(space, depth, group, rules, deep='all', xset='quick', mode='prox', out=os.devnull):
     return {'FM_SPACE': space, 'FM_DEPTH': str(depth), 'FM_GROUP': group, 'FM_RULES': rules,
@@ -387,11 +441,17 @@ def validate_events(ctx, events, tag, chunk=1500, max_workers=12):
 class Built(object):
     """A program concretised on real ODL objects."""
 
-    def __init__(self, sp, f, variant=0):
+    def __init__(self, sp, f, variant=0, factory=None):
         self.sp, self.f, self.variant = sp, f, variant
         self.space = build_space(sp)
         self.func = build(f, self.space, sp, variant)
         self.N = sp['m'] * sp['n']
+        self.factory = factory(self) if factory else None     # proximal factory function instead of f.proximal
+
+    def prox(self, sigma_arg):
+        if self.factory is not None:
+            return self.factory(sigma_arg)
+        return self.func.proximal(sigma_arg)
 
     def el(self, vals):
         return element(self.space, self.sp, vals)
@@ -431,11 +491,38 @@ class Built(object):
         return Fv
 
 
-def probe_offsets(N, rnd, k=4):
-    """coordinate probes +-{1/4, 1/2, 1} e_i and a few mixed lattice perturbations"""
+class Opaque(Built):
+    """A functional outside the catalogue of the specification (no Val / InSubdiff): only the clauses that can
+    be read off the implementation's own numbers apply (event kind "probe")."""
+
+    def __init__(self, name, option, space, func, factory=None, indicator=False):
+        self.name, self.option = name, option
+        self.space, self.func = space, func
+        self.N = int(sum(int(np.prod(s.shape)) for s in _leaves(space)))
+        self.sp = {'kind': 'opaque', 'm': 1, 'n': self.N, 'W': []}
+        self.f = {'op': name, 's': [0, 1], 'c': [0, 1], 'v': [], 'u': [], 'args': []}
+        self.variant = 0
+        self.factory = factory
+        self.indicator = indicator
+
+    def sigma_arg(self, sig, kind, style=0):
+        return float(fr(sig[0]))
+
+
+def _leaves(space):
+    if isinstance(space, odl.ProductSpace):
+        out = []
+        for c in space:
+            out += _leaves(c)
+        return out
+    return [space]
+
+
+def probe_offsets(N, rnd, k=2):
+    """coordinate probes +-{1/4, 1} e_i and a few mixed lattice perturbations"""
     out = []
     for i in range(N):
-        for t in (0.25, 0.5, 1.0):
+        for t in (0.25, 1.0):
             for sgn in (1, -1):
                 v = [0.0] * N
                 v[i] = sgn * t
@@ -454,7 +541,7 @@ def observe_prox(B, sig, kind, xvals, zstar, rnd, style=0, want_idem=False):
     ev = {'k': 'prox', 'sp': B.sp, 'f': B.f, 'sig': sig, 'sk': kind, 'x': [qj(Fraction(v)) for v in xvals],
           'slackq': PROBE_SLACKQ, 'finite': 0, 'Fpq': 0, 'p': [], 'probes': [], 'idemq': -1}
     try:
-        P = B.func.proximal(B.sigma_arg(sig, kind, style))
+        P = B.prox(B.sigma_arg(sig, kind, style))
     except NotImplementedError:
         info['err'] = 'NotImplementedError'
         return None, info                      # the functional does not offer a proximal
@@ -474,19 +561,55 @@ def observe_prox(B, sig, kind, xvals, zstar, rnd, style=0, want_idem=False):
         return ev, info
     pf = flat(p)
     ev['p'] = snapvec(pf)
+    onlat = all(known(t) for t in ev['p'])
+    # probes are taken around the SNAPPED p (exact lattice points) whenever p is on the lattice
+    pbase = np.array([float(fr(t)) for t in ev['p']]) if onlat else pf
     F = B.prox_objective(x, sig, kind)
     try:
         fp, Fp = F(p)
+    except NotImplementedError:
+        # the functional cannot be evaluated (default convex conjugate): no literal verdict; the event is
+        # judged by TLC through the sub-gradient certificate only
+        ev['finite'] = 1
+        ev['noeval'] = 1
+        info['noeval'] = True
+        info['p'] = pf.tolist()
+        info['better'] = None
+        return ev, info
     except Exception as e:
         info['err'] = 'value:' + type(e).__name__ + ': ' + str(e)[:100]
         return ev, info
+    info['rounding_infeasible'] = False
+    if not math.isfinite(fp):
+        # f(p) = +inf within rounding distance (1e-9 relative) of the feasible set is not a verdict of this check
+        # (ulp-level accuracy is out of scope): look at the lattice point p snaps to, then at p pushed by 1e-9
+        # along the projection direction p - x and at a few random 1e-9 perturbations.
+        near = []
+        if onlat:
+            near.append(pbase)
+        scale = 1e-9 * max(1.0, float(np.max(np.abs(pf))))
+        dirv = pf - np.array([float(v) for v in xvals])
+        nd = float(np.linalg.norm(dirv))
+        if nd > 0:
+            near.append(pf + scale * dirv / nd)
+        prn = np.random.RandomState(12345)
+        for _ in range(8):
+            near.append(pf + scale * prn.uniform(-1, 1, size=pf.shape))
+        for cand in near:
+            try:
+                fp2, Fp2 = F(B.el(cand))
+            except Exception:
+                continue
+            if math.isfinite(fp2):
+                fp, Fp = fp2, Fp2
+                info['rounding_infeasible'] = True
+                break
     ev['finite'] = 1 if math.isfinite(fp) else 0
     fq = fixq(Fp)
     info['Fp'] = Fp
     info['p'] = pf.tolist()
     if fq is None:
         ev['Fpq'] = 0
-        ev['finite'] = ev['finite'] if math.isfinite(fp) else 0
         info['unquantised'] = True
     else:
         ev['Fpq'] = fq
@@ -496,19 +619,22 @@ def observe_prox(B, sig, kind, xvals, zstar, rnd, style=0, want_idem=False):
         cands.append(('zstar', [float(v) for v in zstar]))
     xv = np.array([float(v) for v in xvals])
     cands.append(('x', xv.tolist()))
-    for t in (0.25, 0.5, 0.75):
-        cands.append(('seg', (pf + t * (xv - pf)).tolist()))
+    for t in (0.5,):
+        cands.append(('seg', (pbase + t * (xv - pbase)).tolist()))
     for off in probe_offsets(B.N, rnd):
-        cands.append(('pert', (pf + np.array(off)).tolist()))
+        cands.append(('pert', (pbase + np.array(off)).tolist()))
     worst = None
     for tag, zv in cands:
+        zs = snapvec(zv)
+        if all(known(t) for t in zs):
+            zv = [float(fr(t)) for t in zs]         # evaluate AT the lattice point
         z = B.el(zv)
         try:
             fz, Fz = F(z)
         except Exception:
             continue
         Fq = fixq(Fz)
-        pr = {'z': snapvec(zv), 'fz': snapv(fz), 'Fq': Fq if Fq is not None else 0,
+        pr = {'z': zs, 'fz': snapv(fz), 'Fq': Fq if Fq is not None else 0,
               'fin': 1 if (Fq is not None and fq is not None) else 0}
         ev['probes'].append(pr)
         if pr['fin'] and ev['finite'] and Fq < ev['Fpq'] - PROBE_SLACKQ:
@@ -530,6 +656,7 @@ def vec_fr(vals):
 
 
 def uncovered_report(ctx, covered):
+    finish_report(ctx)
     allc = all_functional_classes()
     abstract = {'Functional'}
     unc = sorted(allc - set(covered) - abstract)
